@@ -9,7 +9,7 @@ import random
 import subprocess
 import time
 
-from .common import (BIN, ToolError, build_harness, finish, load_findings, log, save_replay, tlc_mc,
+from .common import (run_harness, BIN, ToolError, build_harness, finish, load_findings, log, save_replay, tlc_mc,
                      validate_sharded, workdir, write_evidence)
 
 VCHILD = os.path.join(BIN, "vchild")
@@ -123,8 +123,7 @@ def run(pid, tier, seed, replay=None):
         for c in cases:
             f.write(json.dumps(c) + "\n")
     tpath = os.path.join(wd, "trace.ndjson")
-    r = subprocess.run([os.path.join(BIN, "quote_replay"), cpath, tpath], stdin=subprocess.DEVNULL,
-                       stdout=subprocess.PIPE, stderr=subprocess.PIPE, text=True, timeout=1500)
+    r = run_harness([os.path.join(BIN, "quote_replay"), cpath, tpath], 1500)
     if r.returncode != 0:
         log(r.stderr[-2000:])
         raise ToolError("quote_replay failed with status %d (for C20: were the Windows functions renamed?)" % r.returncode)
